@@ -229,7 +229,7 @@ def _big_job(job):
     from .. import docspace as D
     which, seed, part = job
     acc = Acc()
-    m = D.giant_model(seed, rows=1650) if which == 'giant' else D.aligned_model(seed, int(which[7:]))
+    m = D.giant_model(seed, rows=1650) if which == 'giant' else (D.distinct_single_model(seed) if which == 'distinct' else D.aligned_model(seed, int(which[7:])))
     doc, _ = kp.loads(m.text())
     sels = [((c,), None) for c in sorted(catref.ALL)] + [(None, (c,)) for c in sorted(catref.ALL)] + \
            [(('DECORATION', 'BARLINES'), None), (('SIGNATURES',), ('CLEF',)), (('CORE', 'SIGNATURES'), ('NOTE',)), (None, ('CORE', 'BARLINES'))]
@@ -263,7 +263,7 @@ def run(ctx):
     ctx.assumptions = ['selected set = include closure minus exclude closure over the README tree (kv/catref.py); C11 decides that kernpy computes it for every pair',
                        'a chord left with only null notes makes its row optional (DESIGN §2.1)', 'key designations (*C:) not generated: category ambiguous']
     nparts = 4
-    ctx.pmap(_big_job, [(w, ctx.seed, p_) for w in ('giant', 'aligned128', 'aligned1100') for p_ in range(4)], chunksize=1)
+    ctx.pmap(_big_job, [(w, ctx.seed, p_) for w in ('giant', 'aligned128', 'aligned1100', 'distinct') for p_ in range(4)], chunksize=1)
     ctx.pmap(_doc_job, [(di, ctx.tier, ctx.seed, p, nparts) for di in range(len(fam)) for p in range(nparts)], chunksize=1)
     ctx.pmap(_selset_job, [(lo, min(lo + 8, 705), not quick) for lo in range(0, 705, 8)], chunksize=1)
     ntop = len(catref.TOP)
